@@ -2,6 +2,13 @@
 
 #include "ccl/env/cclEnvironment.h"
 
+#ifdef CCL_VERIF
+namespace ccl::verif {
+// Verification hook H1: harness-controlled identifier stream (nullptr = original behaviour)
+EntityUID (*uidSource)(const SetOfEntities& taken) = nullptr;
+} // namespace ccl::verif
+#endif
+
 namespace ccl::tools {
 
 void EntityGenerator::Clear() noexcept {
@@ -9,6 +16,13 @@ void EntityGenerator::Clear() noexcept {
 }
 
 EntityUID EntityGenerator::NewUID() {
+#ifdef CCL_VERIF
+  if (ccl::verif::uidSource != nullptr) {
+    const auto forced = ccl::verif::uidSource(entities);
+    entities.emplace(forced);
+    return forced;
+  }
+#endif
   EntityUID result{ 0 };
   const auto oldSize = ssize(entities);
   while (ssize(entities) == oldSize) {
